@@ -178,7 +178,9 @@ namespace via
         Routes_const_iterator iter(routes_.cbegin());
         for (; iter != routes_.cend (); ++iter)
         {
-          bool found_path(uri_path.find(iter->search_path) != std::string::npos);
+          // the path must start with the route's search path
+          bool found_path(uri_path.compare(0, iter->search_path.size(),
+                                           iter->search_path) == 0);
           if (found_path)
           {
             if (iter->has_parameters())
